@@ -144,8 +144,10 @@ func runC28(c c28Case) (r vf.Result) {
 		for _, cs := range s.Calls {
 			if cs.Call.API == "Sleep" && !cs.Finished() {
 				woke := false
-				for _, e := range s.ClientDatagrams() {
-					if e.Ns >= cs.StartNs && e.SN != nil && e.SN.Type == snref.PINGREQ && len(e.SN.ClientID) > 0 {
+				// (by position in the log, not by time: the wake-up PINGREQ of the previous
+				// Sleep may carry the same virtual instant as the start of this one)
+				for _, e := range s.ClientDatagramsSince(cs.StartSeq) {
+					if e.SN != nil && e.SN.Type == snref.PINGREQ && len(e.SN.ClientID) > 0 {
 						woke = true
 					}
 				}
